@@ -49,7 +49,6 @@ let kclass_str = function
   | None -> "-"
   | Some KReadIfsShadowed -> "read-ifs-shadowed"
   | Some KReadRejoined -> "read-remainder-rejoined"
-  | Some KCdHomeNotExported -> "cd-home-not-exported"
 
 let state_str (s : st) : string =
   "L" ^ sorted_map s.locals ^ " E" ^ sorted_map s.envp ^ " cwd=" ^ q s.cwd ^ " prev=" ^ q s.prev
@@ -111,10 +110,10 @@ let rec tokens = function
   | t :: x :: r -> (tag_of (dec_bytes t), str_of_field x) :: tokens r
   | _ -> failwith "tokens"
 
-(* which of the proposed repairs the tree under test contains: letters e (export), r (read), c (cd) *)
+(* does the tree under test contain the proposed repair of read (notes/C09-fix-6.patch)? *)
 let fx =
   let f = try Sys.getenv "C09_FIXES" with Not_found -> "" in
-  { fx_export = String.contains f 'e'; fx_read = String.contains f 'r'; fx_cd = String.contains f 'c' }
+  (String.contains f (Char.chr 114) : fixes) (* single-field record: extracted as its field *)
 
 let () =
   iter_lines (fun l ->
